@@ -233,8 +233,18 @@ impl vstd::std_specs::convert::FromSpecImpl<Xstr> for Cell {
 impl From<Xstr> for Cell {
 //@use cell.fns "impl From<Xstr> for Cell"::from
 }
+impl vstd::std_specs::convert::FromSpecImpl<i128> for Cell {
+    open spec fn obeys_from_spec() -> bool { true }
+    open spec fn from_spec(x: i128) -> Cell { Cell::Int(x) }
+}
+impl From<i128> for Cell {
+//@use cell.fns "impl From<i128> for Cell"::from
+}
+//@use cell.fns ::cell_type_error assumed
 impl Cell {
     #[verifier::external_body] pub fn insert_tag(&self, key: Cell, val: Cell) -> Cell { unimplemented!() }
+//@use cell.fns Cell::value assumed
+//@use cell.fns Cell::to_xint assumed
 }
 impl Xerr {
     #[verifier::external_body] pub fn unbalanced_map_builder() -> Xerr { unimplemented!() }
@@ -260,6 +270,8 @@ impl State {
 //@use compile.fns ::core_word_map_end
 //@use compile.fns ::core_word_tagmap_begin
 //@use compile.fns ::core_word_tagmap_end
+//@use compile.fns ::enum_flow_error
+//@use compile.fns ::enum_field_default
 //@use compile.fns ::build_let_match
 //@use compile.fns ::build_let_vec_next
 //@use compile.fns ::build_let_named
